@@ -800,6 +800,9 @@ def tree_name_to_values(inference_state, context, tree_name):
         types = NO_VALUES
     elif typ == 'namedexpr_test':
         types = infer_node(context, node)
+    elif typ == 'error_node':
+        # Broken code, e.g. an unfinished `except X as name`.
+        types = NO_VALUES
     else:
         raise ValueError("Should not happen. type: %s" % typ)
     return types
